@@ -142,7 +142,11 @@ func PropagateLookaheads(m *Model) error {
 		if len(args) < len(params) {
 			for _, param := range params {
 				if m.Params[param].Lookahead && !containsArg(args, param) {
-					args = append(args, Arg{Param: param, Value: "false"})
+					value := m.Params[param].DefaultValue
+					if value == "" {
+						value = "false"
+					}
+					args = append(args, Arg{Param: param, Value: value})
 				}
 			}
 		}
